@@ -157,7 +157,7 @@ def libfunc_ap_cost(ctx, cone=None):
             "axioms": pr.get("axioms", [])}
 
 
-def run_shards(ctx, case_dir, workers=8, timeout=2400):
+def run_shards(ctx, case_dir, workers=6, timeout=2400):
     """As vlib.run_case_shards, with a bounded number of coqc processes (shared machine) and only
     the libraries the case files need on the load path."""
     import glob
